@@ -390,3 +390,8 @@ _add(
     "C30",
     m("contentdir-quick-hash", F, "        file_hashes = [file.hash for file in self]\n        return hash_struct([self.type_basename, self.path] + sorted(file_hashes))\n\n\nclass ContentStagingFile", "        file_hashes = self.filesystem.iter_file_hashes(self.path)\n        return hash_struct([self.type_basename, self.path] + sorted(file_hashes))\n\n\nclass ContentStagingFile", "C30.4"),
 )
+_add(
+    "C33",
+    m("console-join-on-call-hash", "redun/console/screens.py", "                .outerjoin(Value, CallNode.value_hash == Value.value_hash)\n                .filter(Job.parent_id == root_id)", "                .outerjoin(Value, CallNode.call_hash == Value.value_hash)\n                .filter(Job.parent_id == root_id)", "C33.4"),
+    m("console-done-includes-cached", "redun/console/screens.py", "                    query = query.filter(\n                        Job.cached.is_(False) & (Value.type != REDUN_ERROR_TYPE_NAME)\n                    )", "                    query = query.filter(Value.type != REDUN_ERROR_TYPE_NAME)", "C33.4"),
+)
